@@ -118,6 +118,9 @@ func (p *Proc) evalCall(ec *ectx, call *ast.CallExpr) Val {
 					if fn, ok := pn.Imported().Scope().Lookup(f.Sel.Name).(*types.Func); ok {
 						return p.specFuncCall(ec, fn, nil, call)
 					}
+					if d, ok := p.ctx.dirs.Defines[f.Sel.Name]; ok && d.PkgPath == pn.Imported().Path() {
+						return p.evalDefine(ec, d, call)
+					}
 					p.failf(call, "%s: unknown function %s.%s", ec.where, id.Name, f.Sel.Name)
 				}
 			}
@@ -474,7 +477,7 @@ func (p *Proc) contractFor(fn *types.Func) (*Contract, *FuncInfo) {
 func (p *Proc) libFor(fn *types.Func) *Contract {
 	key := funcKeyOf(fn)
 	// lib names use short form: strings.IndexByte, (*bytes.Buffer).Write -> bytes.(*Buffer).Write
-	if ct, ok := p.ctx.libs[key]; ok {
+	if ct, ok := p.ctx.libs[strings.TrimPrefix(key, ".")]; ok {
 		return ct
 	}
 	return nil
@@ -850,12 +853,20 @@ func (p *Proc) execGo(st *State, x *ast.GoStmt) {
 		p.ctx.notes["go statements: the spawned call runs later under its own contract; only argument evaluation happens here"] = true
 		return
 	}
-	// go cb(...): a function value invoked on another goroutine counts as an invocation
+	// go cb(...): a callback parameter invoked on another goroutine counts as an invocation;
+	// any other function value is only recorded as spawned (it runs later, under its own contract)
 	fv := p.eval(ec, x.Call.Fun)
 	sig, ok := fv.Typ.Underlying().(*types.Signature)
 	if !ok {
 		p.failf(x, "go of non-function")
 	}
 	args := p.evalArgs(ec, sig, x.Call)
-	p.callValue(ec, x.Call.Fun, fv, sig, args, x.Call)
+	if v := p.varOfExpr(ec, x.Call.Fun); v != nil && p.cbParams[v.Name()] == v {
+		p.callValue(ec, x.Call.Fun, fv, sig, args, x.Call)
+		return
+	}
+	cnt := p.heapGet(st, "G:$spawncount", SInt)
+	_ = p.heapGet(st, "G:$spawned", SInt)
+	p.heapSet(st, "G:$spawncount", Add(cnt, IntLit(1)))
+	p.heapSet(st, "G:$spawned", fv.T)
 }
